@@ -1,9 +1,11 @@
 /-
-`Sim` (see `Lemmas/PairAllView.lean`) for the connection task of the endpoint model: `processIn`, `recvOne`,
-the wind-down (`disallowAll`, `sendSome`, `windDownInbox`, `windDownFinish`, `windDownTail`, `windDown`,
+`Sim` / `SimX` (see `Lemmas/PairAllView.lean`) for the connection task of the endpoint model: `processIn`,
+`recvOne`, the wind-down (`disallowAll`, `sendSome`, `windDownInbox`, `windDownFinish`, `windDownTail`, `windDown`,
 `drainStep`, `closingStep`), the task's loop `settleLoop`, the open futures (`runRetries`, `runDone`) and
-`settle`.  The inbox is an argument of `Sim`; the loops that walk over a list of transport items without
-updating the `inbox` field (`windDownInbox`) are stated with that list.
+`settle`.  The functions that process frames are stated as `SimX`, with the `.fin` records of their end-event
+mirror (`Lemmas/MuxEof.lean`): one record for every `Finish x` processed while the slot of `x` was
+`Established j`; the others record nothing (`Sim`).  The inbox is an argument of `Sim`; the loops that walk over
+a list of transport items without updating the `inbox` field (`windDownInbox`) are stated with that list.
 Core Lean only.
 -/
 import Penguin.Lemmas.PairAllSimFrame
@@ -14,25 +16,56 @@ open Penguin.Mux
 variable {x j : Nat}
 
 /-- Rewrite the inbox arguments. -/
-theorem Sim.inb {l l' l1 l1' : List WsIn} {e e' : EP} {evs : List Ev} {L : Log} (s : Sim x j l e l' e' evs L)
-    (h1 : l1 = l) (h2 : l1' = l') : Sim x j l1 e l1' e' evs L := by
+theorem SimX.inb {l l' l1 l1' : List WsIn} {e e' : EP} {evs : List Ev} {L : Log} {X : List XL}
+    (s : SimX x j l e l' e' evs L X) (h1 : l1 = l) (h2 : l1' = l') : SimX x j l1 e l1' e' evs L X := by
   subst h1 h2; exact s
+
+theorem Sim.inb {l l' l1 l1' : List WsIn} {e e' : EP} {evs : List Ev} {L : Log} (s : Sim x j l e l' e' evs L)
+    (h1 : l1 = l) (h2 : l1' = l') : Sim x j l1 e l1' e' evs L := SimX.inb s h1 h2
+
+/-- A silent step without records, then a recorded one. -/
+theorem SimX.tr0 {la lb lc : List WsIn} {a b c : EP} {ev2 : List Ev} {L : Log} {X : List XL}
+    (s : Sim x j la a lb b [] []) (t : SimX x j lb b lc c ev2 L X) : SimX x j la a lc c ev2 L X :=
+  (((SimX.trans s t).evs (List.nil_append _).symm).log rfl).rec rfl
+
+/-- A recorded step, then a silent one without records. -/
+theorem SimX.tr1 {la lb lc : List WsIn} {a b c : EP} {ev1 : List Ev} {L : Log} {X : List XL}
+    (s : SimX x j la a lb b ev1 L X) (t : Sim x j lb b lc c [] []) : SimX x j la a lc c ev1 L X :=
+  (((SimX.trans s t).evs (List.append_nil _).symm).log (List.append_nil _).symm).rec (List.append_nil _).symm
+
+/-- A recorded step preceded by a silent one without records. -/
+theorem SimX.tr0' {la lb lc : List WsIn} {a b c : EP} {ev2 : List Ev} {L : Log} {X : List XL}
+    (t : SimX x j lb b lc c ev2 L X) (s : Sim x j la a lb b [] []) : SimX x j la a lc c ev2 L X := SimX.tr0 s t
+
+/-- A parked hand-over is abandoned. -/
+theorem Sim.parkNone {l : List WsIn} (e : EP) : Sim x j l e l { e with park := none } [] [] := by
+  refine Sim.bhDrop e _ rfl ?_
+  simp only [bindHeld, Bool.or_false]
+  intro h; rw [h]; rfl
+
+theorem finsOf_slotEnds_ne (e : EP) (s : Slot) (c : EndCause) (hc : c ≠ .peerFinish x) :
+    finsOf x j (slotEnds e s c) = [] := by
+  cases s <;> simp only [slotEnds, finsOf_nil]
+  split
+  · simp [finsOf, hc]
+  · rfl
 
 /-! ### One item from the transport -/
 
 /-- `process_message`: the item is the head of the inbox before, and gone after (an item that ends the
     source is taken by `recvOne` / left in place by the wind-down). -/
-theorem Sim.processIn {l : List WsIn} (e : EP) (w : WsIn) (ig : Bool) (hsf : SF e) (hj : J x j (processIn e w ig).1)
+theorem SimX.processIn {l : List WsIn} (e : EP) (w : WsIn) (ig : Bool) (hsf : SF e) (hj : J x j (processIn e w ig).1)
     (hend : isEnd w = false) :
-    Sim x j (w :: l) e l (processIn e w ig).1 (processIn e w ig).2.1 (processInLog e w) := by
+    SimX x j (w :: l) e l (processIn e w ig).1 (processIn e w ig).2.1 (processInLog e w)
+      (finsOf x j (processInEnds e w)) := by
   cases w with
   | msg m =>
     cases m with
     | frame f => exact Sim.processFrame e f ig hsf hj
-    | ping => exact Sim.pop e _ (by intro m hm; cases hm; exact ⟨rfl, rfl, rfl⟩) rfl
-    | pong => exact Sim.pop e _ (by intro m hm; cases hm; exact ⟨rfl, rfl, rfl⟩) rfl
-    | close => exact Sim.pop e _ (by intro m hm; cases hm; exact ⟨rfl, rfl, rfl⟩) rfl
-  | bad b => exact Sim.pop e _ (by intro m hm; cases hm) rfl
+    | ping => exact (Sim.pop e _ (by intro m hm; cases hm; exact ⟨rfl, rfl, rfl, rfl, rfl⟩) rfl).toX
+    | pong => exact (Sim.pop e _ (by intro m hm; cases hm; exact ⟨rfl, rfl, rfl, rfl, rfl⟩) rfl).toX
+    | close => exact (Sim.pop e _ (by intro m hm; cases hm; exact ⟨rfl, rfl, rfl, rfl, rfl⟩) rfl).toX
+  | bad b => exact (Sim.pop e _ (by intro m hm; cases hm) rfl).toX
   | err => simp [isEnd] at hend
   | eof => simp [isEnd] at hend
 
@@ -41,21 +74,22 @@ theorem recvOne_inbox (e : EP) (w : WsIn) (rest : List WsIn) : (recvOne e w rest
   rw [processIn_inbox]
 
 /-- The receive loop takes one item: an item that ends the source marks the source as ended. -/
-theorem Sim.recvOne {rest : List WsIn} (e : EP) (w : WsIn) (hsf : SF e) (hj : J x j (recvOne e w rest).1) :
-    Sim x j (w :: rest) e rest (recvOne e w rest).1 (recvOne e w rest).2.1 (recvOneLog e w rest) := by
+theorem SimX.recvOne {rest : List WsIn} (e : EP) (w : WsIn) (hsf : SF e) (hj : J x j (recvOne e w rest).1) :
+    SimX x j (w :: rest) e rest (recvOne e w rest).1 (recvOne e w rest).2.1 (recvOneLog e w rest)
+      (finsOf x j (recvOneEnds e w rest)) := by
   cases w with
   | eof =>
-    refine Sim.one (AStep.pop (view x j e (.eof :: rest)) .eof rest rfl (by intro m hm; cases hm)) ?_ rfl rfl
-    simp [Mux.recvOne, Mux.processIn, view, canAcc, isEnd]
+    refine Sim.toX (Sim.one (AStep.pop (view x j e (.eof :: rest)) .eof rest rfl (by intro m hm; cases hm)) ?_ rfl rfl)
+    simp [Mux.recvOne, Mux.processIn, view, canAcc, isEnd, bindHeld]
   | err =>
-    refine Sim.one (AStep.pop (view x j e (.err :: rest)) .err rest rfl (by intro m hm; cases hm)) ?_ rfl rfl
-    simp [Mux.recvOne, Mux.processIn, view, canAcc, isEnd]
+    refine Sim.toX (Sim.one (AStep.pop (view x j e (.err :: rest)) .err rest rfl (by intro m hm; cases hm)) ?_ rfl rfl)
+    simp [Mux.recvOne, Mux.processIn, view, canAcc, isEnd, bindHeld]
   | msg m =>
-    simp only [Mux.recvOne, recvOneLog, reduceCtorEq, or_self, if_false] at hj ⊢
-    exact (Sim.processIn (l := rest) { e with inbox := rest } (.msg m) false hsf hj rfl).congr rfl rfl
+    simp only [Mux.recvOne, recvOneLog, recvOneEnds, reduceCtorEq, or_self, if_false] at hj ⊢
+    exact (SimX.processIn (l := rest) { e with inbox := rest } (.msg m) false hsf hj rfl).congr rfl rfl
   | bad b =>
-    simp only [Mux.recvOne, recvOneLog, reduceCtorEq, or_self, if_false] at hj ⊢
-    exact (Sim.processIn (l := rest) { e with inbox := rest } (.bad b) false hsf hj rfl).congr rfl rfl
+    simp only [Mux.recvOne, recvOneLog, recvOneEnds, reduceCtorEq, or_self, if_false] at hj ⊢
+    exact (SimX.processIn (l := rest) { e with inbox := rest } (.bad b) false hsf hj rfl).congr rfl rfl
 
 /-! ### The pieces of the wind-down -/
 
@@ -71,17 +105,41 @@ theorem Sim.disallowAll {l : List WsIn} (e : EP) (fl : List (Nat × Slot)) : Sim
     | requested r => simp only [Mux.disallowAll]; exact ih e
     | bindRequested r => simp only [Mux.disallowAll]; exact ih e
 
-theorem Sim.drainFlows {l : List WsIn} (e : EP) (fl : List (Nat × Slot)) :
+theorem closeLocal_flows_nil (e : EP) (s : Slot) (fid : Nat) (inh final : Bool) (h : e.flows = []) :
+    (closeLocal e s fid inh final).1.flows = [] := by
+  unfold Mux.closeLocal Mux.openRejected
+  repeat' split
+  all_goals simp [EP.modObj, EP.enqFrame, EP.enq, h]
+  all_goals split <;> simp
+
+theorem canAcc_flows_nil (e : EP) (h : e.flows = []) : canAcc x j e = false := by
+  simp [canAcc, canAccF, h]
+
+/-- The flow table was emptied before: no slot is left that could be object `j`'s. -/
+theorem Sim.drainFlows {l : List WsIn} (e : EP) (fl : List (Nat × Slot)) (h : e.flows = []) :
     Sim x j l e l (drainFlows e fl).1 (drainFlows e fl).2 [] := by
   induction fl generalizing e with
   | nil => exact Sim.refl l e
   | cons p fl ih =>
     obtain ⟨fid, s⟩ := p
     simp only [Mux.drainFlows]
-    exact (Sim.closeLocal e s fid true true).tr (ih _)
+    exact (Sim.closeLocal e s fid true true (by intro hc; rw [canAcc_flows_nil e h] at hc; cases hc)).tr
+      (ih _ (closeLocal_flows_nil e s fid true true h))
+
+theorem finsOf_drainFlowsEnds (e : EP) (res : ExitRes) (fl : List (Nat × Slot)) :
+    finsOf x j (drainFlowsEnds e res fl) = [] := by
+  induction fl generalizing e with
+  | nil => rfl
+  | cons p fl ih =>
+    obtain ⟨fid, s⟩ := p
+    simp only [drainFlowsEnds, finsOf_append, ih, List.append_nil]
+    exact finsOf_slotEnds_ne e s _ (by intro h; cases h)
+
+theorem finsOf_windDownFinishEnds (e : EP) (res : ExitRes) : finsOf x j (windDownFinishEnds e res) = [] :=
+  finsOf_drainFlowsEnds _ res _
 
 /-- The send loop hands the `n` oldest queued messages to the transport. -/
-theorem Star.emits (n : Nat) (v : View) : Star x j v { v with outq := v.outq.drop n } (v.outq.take n) [] := by
+theorem Star.emits (n : Nat) (v : View) : Star x j v { v with outq := v.outq.drop n } (v.outq.take n) [] [] := by
   induction n generalizing v with
   | zero => exact (Star.refl v).cast (by rw [List.drop_zero]) (by simp) rfl
   | succ n ih =>
@@ -93,15 +151,21 @@ theorem Star.emits (n : Nat) (v : View) : Star x j v { v with outq := v.outq.dro
 theorem Sim.sendSome {l : List WsIn} (e : EP) : Sim x j l e l (sendSome e).1 (sendSome e).2 [] := by
   unfold Mux.sendSome
   split
-  · exact (Star.emits e.outq.length (view x j e l)).cast (by simp [view, canAcc]) (by rw [wireMsgs_wires]; simp [view]) rfl
+  · exact (Star.emits e.outq.length (view x j e l)).cast (by simp [view, canAcc, bindHeld]) (by rw [wireMsgs_wires]; simp [view]) rfl
   · rename_i n _
-    exact (Star.emits n (view x j e l)).cast (by simp [view, canAcc]) (by rw [wireMsgs_wires]; simp [view]) rfl
+    exact (Star.emits n (view x j e l)).cast (by simp [view, canAcc, bindHeld]) (by rw [wireMsgs_wires]; simp [view]) rfl
 
 theorem Sim.dropPrep {l : List WsIn} (e : EP) : Sim x j l e l (dropPrep e) [] [] :=
-  (Sim.disallowAll e e.flows).tr0 (Sim.one (AStep.closeOut (view x j (Mux.disallowAll e e.flows) l)) rfl rfl rfl)
+  ((Sim.disallowAll e e.flows).tr0
+    (Sim.one (e' := { Mux.disallowAll e e.flows with outClosed := true })
+      (AStep.closeOut (view x j (Mux.disallowAll e e.flows) l)) rfl rfl rfl)).tr0
+    ((Sim.parkNone _).congr rfl rfl)
 
 theorem Sim.windDownPrep {l : List WsIn} (e : EP) : Sim x j l e l (windDownPrep e) [] [] :=
-  (Sim.disallowAll e e.flows).tr0 (Sim.one (AStep.clearOutq (view x j (Mux.disallowAll e e.flows) l)) rfl rfl rfl)
+  ((Sim.disallowAll e e.flows).tr0
+    (Sim.one (e' := { Mux.disallowAll e e.flows with outClosed := true, outq := [] })
+      (AStep.clearOutq (view x j (Mux.disallowAll e e.flows) l)) rfl rfl rfl)).tr0
+    ((Sim.parkNone _).congr rfl rfl)
 
 theorem Sim.unpark {l : List WsIn} (e : EP) : Sim x j l e l (unpark e) [] [] := by
   unfold Mux.unpark
@@ -110,15 +174,19 @@ theorem Sim.unpark {l : List WsIn} (e : EP) : Sim x j l e l (unpark e) [] [] := 
   · split
     · split
       · exact (Sim.modObj e _ (fun o => { o with rxOpen := false }) (by sim_side) (by sim_side)).tr0
-          (Sim.same rfl rfl rfl)
-      · sim_same
+          ((Sim.parkNone _).congr rfl rfl)
+      · exact Sim.parkNone e
     · split
-      · sim_same
+      · exact (Sim.parkNone e).congr rfl rfl
       · exact Sim.refl l e
-  · split
-    · exact (Sim.same rfl rfl rfl : Sim x j l e l { e with park := none } [] []).tr0 (Sim.enqFrame _ _ rfl rfl rfl)
+  · rename_i b hp
+    split
+    · exact (Sim.parkNone e).tr0 (Sim.enqFrame _ _ rfl rfl rfl)
     · split
-      · sim_same
+      · -- the parked bind request moves to the bind queue: it stays held
+        refine Sim.bhDrop e _ rfl ?_
+        simp only [bindHeld, hp, List.any_append, List.any_cons, List.any_nil, Bool.or_false]
+        cases e.bindq.any (fun b => b.fid == x) <;> cases e.held.any (fun b => b.fid == x) <;> simp
       · exact Sim.refl l e
 
 /-! ### What the source still has, after the sink was closed -/
@@ -151,30 +219,31 @@ theorem windDownInbox_ended (e : EP) (l : List WsIn) (h : (windDownInbox e l).2.
     | bad b => simp only [Mux.windDownInbox] at h; simp only [endRest]; exact ih _ h
 
 /-- The wind-down reads on until the source ends (the item that ends it stays) or nothing is buffered. -/
-theorem Sim.windDownInbox (e : EP) (l : List WsIn) (hsf : SF e) (hj : J x j (windDownInbox e l).1) :
-    Sim x j l e (endRest l) (windDownInbox e l).1 (windDownInbox e l).2.1 (windDownInboxLog e l) := by
+theorem SimX.windDownInbox (e : EP) (l : List WsIn) (hsf : SF e) (hj : J x j (windDownInbox e l).1) :
+    SimX x j l e (endRest l) (windDownInbox e l).1 (windDownInbox e l).2.1 (windDownInboxLog e l)
+      (finsOf x j (windDownInboxEnds e l)) := by
   induction l generalizing e with
-  | nil => exact Sim.refl [] e
+  | nil => exact (Sim.refl [] e).toX
   | cons w l ih =>
     cases w with
-    | err => exact Sim.refl _ e
-    | eof => exact Sim.refl _ e
+    | err => exact (Sim.refl _ e).toX
+    | eof => exact (Sim.refl _ e).toX
     | msg m =>
-      simp only [Mux.windDownInbox, windDownInboxLog, endRest] at hj ⊢
+      simp only [Mux.windDownInbox, windDownInboxLog, windDownInboxEnds, endRest, finsOf_append] at hj ⊢
       have hsf1 : SF { (Mux.processIn e (.msg m) true).1 with park := none } :=
         SF.grow ((Grow.processIn e (.msg m) true).trans (Grow.same rfl rfl)) hsf
       have hj1 : J x j (Mux.processIn e (.msg m) true).1 :=
         J.back ((Grow.same rfl rfl : Grow (Mux.processIn e (.msg m) true).1 { (Mux.processIn e (.msg m) true).1 with park := none }).trans
           (Grow.windDownInbox _ l)) hj
-      exact (Sim.processIn (l := l) e (.msg m) true hsf hj1 rfl).trans ((ih _ hsf1 hj).congr rfl rfl)
+      exact (SimX.processIn (l := l) e (.msg m) true hsf hj1 rfl).trans ((ih _ hsf1 hj).tr0' (Sim.parkNone _))
     | bad b =>
-      simp only [Mux.windDownInbox, windDownInboxLog, endRest] at hj ⊢
+      simp only [Mux.windDownInbox, windDownInboxLog, windDownInboxEnds, endRest, finsOf_append] at hj ⊢
       have hsf1 : SF { (Mux.processIn e (.bad b) true).1 with park := none } :=
         SF.grow ((Grow.processIn e (.bad b) true).trans (Grow.same rfl rfl)) hsf
       have hj1 : J x j (Mux.processIn e (.bad b) true).1 :=
         J.back ((Grow.same rfl rfl : Grow (Mux.processIn e (.bad b) true).1 { (Mux.processIn e (.bad b) true).1 with park := none }).trans
           (Grow.windDownInbox _ l)) hj
-      exact (Sim.processIn (l := l) e (.bad b) true hsf hj1 rfl).trans ((ih _ hsf1 hj).congr rfl rfl)
+      exact (SimX.processIn (l := l) e (.bad b) true hsf hj1 rfl).trans ((ih _ hsf1 hj).tr0' (Sim.parkNone _))
 
 /-- The end of the wind-down: what the source still had is dropped, every slot is released, every flow
     is closed locally. -/
@@ -182,7 +251,8 @@ theorem Sim.windDownFinish {l : List WsIn} (e : EP) (res : ExitRes) :
     Sim x j l e [] (windDownFinish e res).1 (windDownFinish e res).2 [] := by
   have g0 : Sim x j l e [] { e with flows := [] } [] [] :=
     Sim.one (AStep.clearInbox (view x j e l)) rfl rfl rfl
-  have g1 := g0.tr0 (Sim.drainFlows (l := []) { e with flows := [] } e.flows)
+  have g1 := (g0.tr0 (Sim.drainFlows (l := []) { e with flows := [] } e.flows rfl)).tr1
+    (Sim.parkNone (l := []) (Mux.drainFlows { e with flows := [] } e.flows).1)
   simp only [Mux.windDownFinish]
   refine (g1.congr rfl rfl).lbl ?_ rfl
   simp [wireMsgs_append, wireMsgs_map_openDone, wireMsgs]
@@ -196,177 +266,188 @@ theorem windDownTail_inbox (e1 : EP) (flushed : List Ev) (s : Bool) (res : ExitR
 
 /-- The tail of the wind-down: the sink is closed, the source is read on; its events start with the
     `flushed` ones it was given. -/
-theorem Sim.windDownTail (e1 : EP) (flushed : List Ev) (s : Bool) (res : ExitRes) (hsf : SF e1)
+theorem SimX.windDownTail (e1 : EP) (flushed : List Ev) (s : Bool) (res : ExitRes) (hsf : SF e1)
     (hj : J x j (windDownTail e1 flushed s res).1) :
     ∃ evs, (windDownTail e1 flushed s res).2 = flushed ++ evs ∧
-      Sim x j e1.inbox e1 [] (windDownTail e1 flushed s res).1 evs (windDownTailLog e1) := by
+      SimX x j e1.inbox e1 [] (windDownTail e1 flushed s res).1 evs (windDownTailLog e1)
+        (finsOf x j (windDownTailEnds e1 s res)) := by
   have g0 : Sim x j e1.inbox e1 e1.inbox e1 [Ev.wireClose] [] :=
     Sim.one (AStep.sendClose (view x j e1 e1.inbox)) rfl rfl rfl
   revert hj
-  simp only [Mux.windDownTail, windDownTailLog]
+  simp only [Mux.windDownTail, windDownTailLog, windDownTailEnds]
   split
   · intro hj
     have hj1 : J x j (Mux.windDownInbox e1 e1.inbox).1 :=
       J.back ((Grow.same rfl rfl : Grow (Mux.windDownInbox e1 e1.inbox).1 { (Mux.windDownInbox e1 e1.inbox).1 with inbox := [] }).trans
         (Grow.windDownFinish _ res)) hj
-    have g1 := (g0.trans (Sim.windDownInbox e1 e1.inbox hsf hj1)).trans
+    have g1 := (g0.toX.trans (SimX.windDownInbox e1 e1.inbox hsf hj1)).trans
       ((Sim.windDownFinish (l := endRest e1.inbox) { (Mux.windDownInbox e1 e1.inbox).1 with inbox := [] } res).congr
-        (a := (Mux.windDownInbox e1 e1.inbox).1) rfl rfl)
-    exact ⟨_, by simp only [List.append_assoc], g1.log (by simp)⟩
+        (a := (Mux.windDownInbox e1 e1.inbox).1) rfl rfl).toX
+    exact ⟨_, by simp only [List.append_assoc], (g1.log (by simp)).rec (by simp [finsOf_append, finsOf_windDownFinishEnds])⟩
   · rename_i hc
     intro hj
     have hnil : endRest e1.inbox = [] := windDownInbox_not_ended e1 e1.inbox (by
       cases h : (Mux.windDownInbox e1 e1.inbox).2.2 with
       | false => rfl
       | true => simp [h] at hc)
-    have g1 := (g0.trans (Sim.windDownInbox e1 e1.inbox hsf hj)).inb rfl hnil.symm
-    exact ⟨_, by simp only [List.append_assoc], (g1.congr rfl rfl).log (by simp)⟩
+    have g1 := (g0.toX.trans (SimX.windDownInbox e1 e1.inbox hsf hj)).inb rfl hnil.symm
+    exact ⟨_, by simp only [List.append_assoc], ((g1.congr rfl rfl).log (by simp)).rec (by simp)⟩
 
 theorem sendSome_dropPrep_inbox (e : EP) : (sendSome (dropPrep e)).1.inbox = e.inbox := by
   rw [sendSome_inbox]; exact disallowAll_inbox' e e.flows
 
 /-- `wind_down`. -/
-theorem Sim.windDown (e : EP) (drain : Bool) (res : ExitRes) (hsf : SF e) (hj : J x j (windDown e drain res).1) :
-    Sim x j e.inbox e (windDown e drain res).1.inbox (windDown e drain res).1 (windDown e drain res).2
-      (windDownLog e drain) := by
+theorem SimX.windDown (e : EP) (drain : Bool) (res : ExitRes) (hsf : SF e) (hj : J x j (windDown e drain res).1) :
+    SimX x j e.inbox e (windDown e drain res).1.inbox (windDown e drain res).1 (windDown e drain res).2
+      (windDownLog e drain) (finsOf x j (windDownEnds e drain res)) := by
   revert hj
-  simp only [Mux.windDown, windDownLog]
+  simp only [Mux.windDown, windDownLog, windDownEnds]
   split
   · have g : Sim x j e.inbox e e.inbox (Mux.sendSome (Mux.dropPrep e)).1 (Mux.sendSome (Mux.dropPrep e)).2 [] :=
       (Sim.dropPrep e).tr0 (Sim.sendSome _)
     split
     · intro hj
-      obtain ⟨evs, h1, h2⟩ := Sim.windDownTail (Mux.sendSome (Mux.dropPrep e)).1 (Mux.sendSome (Mux.dropPrep e)).2
+      obtain ⟨evs, h1, h2⟩ := SimX.windDownTail (Mux.sendSome (Mux.dropPrep e)).1 (Mux.sendSome (Mux.dropPrep e)).2
         e.srcEnded res (SF.grow ((Grow.dropPrep e).trans (Grow.sendSome _)) hsf) hj
       rw [h1, windDownTail_inbox]
-      exact (g.trans (h2.inb (sendSome_dropPrep_inbox e).symm rfl)).log (by simp)
+      exact ((g.toX.trans (h2.inb (sendSome_dropPrep_inbox e).symm rfl)).log (by simp)).rec (by simp)
     · intro _
-      exact (g.inb rfl (sendSome_dropPrep_inbox e)).congr rfl rfl
+      exact ((g.inb rfl (sendSome_dropPrep_inbox e)).congr rfl rfl).toX
   · intro hj
     have gw : Grow e (Mux.windDownPrep e) :=
       (Grow.disallowAll e e.flows).trans (Grow.same rfl rfl : Grow (Mux.disallowAll e e.flows) (Mux.windDownPrep e))
-    obtain ⟨evs, h1, h2⟩ := Sim.windDownTail (Mux.windDownPrep e) [] e.srcEnded res (SF.grow gw hsf) hj
+    obtain ⟨evs, h1, h2⟩ := SimX.windDownTail (Mux.windDownPrep e) [] e.srcEnded res (SF.grow gw hsf) hj
     rw [h1, windDownTail_inbox]
     have hi : (Mux.windDownPrep e).inbox = e.inbox := disallowAll_inbox' e e.flows
-    exact ((Sim.windDownPrep e).tr0 (h2.inb hi.symm rfl)).evs (by simp)
+    exact (SimX.tr0 (Sim.windDownPrep e) (h2.inb hi.symm rfl)).evs (by simp)
 
 /-- The drain loop of the wind-down after a drop continues. -/
-theorem Sim.drainStep (e : EP) (res : ExitRes) (hsf : SF e) (hj : J x j (drainStep e res).1) :
-    Sim x j e.inbox e (drainStep e res).1.inbox (drainStep e res).1 (drainStep e res).2 (drainStepLog e) := by
+theorem SimX.drainStep (e : EP) (res : ExitRes) (hsf : SF e) (hj : J x j (drainStep e res).1) :
+    SimX x j e.inbox e (drainStep e res).1.inbox (drainStep e res).1 (drainStep e res).2 (drainStepLog e)
+      (finsOf x j (drainStepEnds e res)) := by
   revert hj
-  simp only [Mux.drainStep, drainStepLog]
+  simp only [Mux.drainStep, drainStepLog, drainStepEnds]
   have g : Sim x j e.inbox e e.inbox (Mux.sendSome e).1 (Mux.sendSome e).2 [] := Sim.sendSome e
   split
   · intro hj
     have hsf1 : SF { (Mux.sendSome e).1 with draining := none } := SF.grow ((Grow.sendSome e).trans (Grow.same rfl rfl)) hsf
-    obtain ⟨evs, h1, h2⟩ := Sim.windDownTail { (Mux.sendSome e).1 with draining := none } (Mux.sendSome e).2
+    obtain ⟨evs, h1, h2⟩ := SimX.windDownTail { (Mux.sendSome e).1 with draining := none } (Mux.sendSome e).2
       e.srcEnded res hsf1 hj
     rw [h1, windDownTail_inbox]
-    exact (g.trans ((h2.inb (sendSome_inbox e).symm rfl).congr (a := (Mux.sendSome e).1) rfl rfl)).log (by simp)
+    exact ((g.toX.trans ((h2.inb (sendSome_inbox e).symm rfl).congr (a := (Mux.sendSome e).1) rfl rfl)).log (by simp)).rec
+      (by simp)
   · intro _
-    exact g.inb rfl (sendSome_inbox e)
+    exact (g.inb rfl (sendSome_inbox e)).toX
 
 /-- The close handshake: the task reads on until the source ends. -/
-theorem Sim.closingStep (e : EP) (res : ExitRes) (hsf : SF e) (hj : J x j (closingStep e res).1) :
-    Sim x j e.inbox e (closingStep e res).1.inbox (closingStep e res).1 (closingStep e res).2 (closingStepLog e) := by
+theorem SimX.closingStep (e : EP) (res : ExitRes) (hsf : SF e) (hj : J x j (closingStep e res).1) :
+    SimX x j e.inbox e (closingStep e res).1.inbox (closingStep e res).1 (closingStep e res).2 (closingStepLog e)
+      (finsOf x j (closingStepEnds e res)) := by
   revert hj
-  simp only [Mux.closingStep, closingStepLog]
+  simp only [Mux.closingStep, closingStepLog, closingStepEnds]
   split
   · intro hj
     have hj1 : J x j (Mux.windDownInbox e e.inbox).1 :=
       J.back ((Grow.same rfl rfl : Grow (Mux.windDownInbox e e.inbox).1 { (Mux.windDownInbox e e.inbox).1 with inbox := [] }).trans
         (Grow.windDownFinish _ res)) hj
     rw [windDownFinish_inbox]
-    exact ((Sim.windDownInbox e e.inbox hsf hj1).trans
+    exact (((SimX.windDownInbox e e.inbox hsf hj1).trans
       ((Sim.windDownFinish (l := endRest e.inbox) { (Mux.windDownInbox e e.inbox).1 with inbox := [] } res).congr
-        (a := (Mux.windDownInbox e e.inbox).1) rfl rfl)).log (by simp)
+        (a := (Mux.windDownInbox e e.inbox).1) rfl rfl).toX).log (by simp)).rec
+      (by simp [finsOf_append, finsOf_windDownFinishEnds])
   · rename_i hc
     intro hj
     have hnil : endRest e.inbox = [] := windDownInbox_not_ended e e.inbox (by simpa using hc)
-    exact ((Sim.windDownInbox e e.inbox hsf hj).inb rfl hnil.symm).congr rfl rfl
+    exact (((SimX.windDownInbox e e.inbox hsf hj).inb rfl hnil.symm).congr rfl rfl).rec (by simp)
 
 /-! ### The task's loop -/
 
 /-- Receive loop, notification loop, wind-down: the events emitted extend `acc`. -/
-theorem Sim.settleLoop (fuel : Nat) (e : EP) (acc : List Ev) (hsf : SF e) :
+theorem SimX.settleLoop (fuel : Nat) (e : EP) (acc : List Ev) (hsf : SF e) :
     J x j (settleLoop fuel e acc).1 →
     ∃ evs, (settleLoop fuel e acc).2 = acc ++ evs ∧
-      Sim x j e.inbox e (settleLoop fuel e acc).1.inbox (settleLoop fuel e acc).1 evs (settleLoopLog fuel e) := by
+      SimX x j e.inbox e (settleLoop fuel e acc).1.inbox (settleLoop fuel e acc).1 evs (settleLoopLog fuel e)
+        (finsOf x j (settleLoopEnds fuel e)) := by
   induction fuel generalizing e acc with
-  | zero => intro _; exact ⟨[], by simp [Mux.settleLoop], Sim.refl _ e⟩
+  | zero => intro _; exact ⟨[], by simp [Mux.settleLoop], (Sim.refl _ e).toX⟩
   | succ n ih =>
-    unfold Mux.settleLoop settleLoopLog
+    unfold Mux.settleLoop settleLoopLog settleLoopEnds
     split
-    · intro _; exact ⟨[], by simp, Sim.refl _ e⟩
+    · intro _; exact ⟨[], by simp, (Sim.refl _ e).toX⟩
     · split
       · rename_i res hdr
         simp only [hdr]
         intro hj
-        exact ⟨_, rfl, Sim.drainStep e res hsf hj⟩
+        exact ⟨_, rfl, SimX.drainStep e res hsf hj⟩
       · rename_i hdr
         simp only [hdr]
         split
         · rename_i res hcl
           simp only [hcl]
           intro hj
-          exact ⟨_, rfl, Sim.closingStep e res hsf hj⟩
+          exact ⟨_, rfl, SimX.closingStep e res hsf hj⟩
         · rename_i hcl
           simp only [hcl]
           have gu : Sim x j e.inbox e e.inbox (Mux.unpark e) [] [] := Sim.unpark e
           have hsfu : SF (Mux.unpark e) := SF.grow (Grow.unpark e) hsf
           split
           · rename_i w rest hp hi
-            rw [recvCase_pos _ _ hp hi]
+            rw [recvCase_pos _ _ hp hi, recvOrElse_recv _ _ hp hi]
             have hi' : e.inbox = w :: rest := by rw [← unpark_inbox' e]; exact hi
             have hsf1 : SF (Mux.recvOne (Mux.unpark e) w rest).1 := SF.grow (Grow.recvOne _ w rest) hsfu
             split
             · rename_i r hr
-              simp only [hr]
+              simp only [hr, finsOf_append]
               intro hj
               have hj1 : J x j (Mux.recvOne (Mux.unpark e) w rest).1 := J.back (Grow.windDown _ false r) hj
-              have gp := (gu.tr0 ((Sim.recvOne (rest := rest) (Mux.unpark e) w hsfu hj1).inb hi' rfl))
-              have gw := (Sim.windDown (Mux.recvOne (Mux.unpark e) w rest).1 false r hsf1 hj).inb
+              have gp := SimX.tr0 gu ((SimX.recvOne (rest := rest) (Mux.unpark e) w hsfu hj1).inb hi' rfl)
+              have gw := (SimX.windDown (Mux.recvOne (Mux.unpark e) w rest).1 false r hsf1 hj).inb
                 (recvOne_inbox (Mux.unpark e) w rest).symm rfl
               exact ⟨_, by rw [List.append_assoc], gp.trans gw⟩
             · rename_i hr
-              simp only [hr]
+              simp only [hr, finsOf_append]
               intro hj
               have hj1 : J x j (Mux.recvOne (Mux.unpark e) w rest).1 := J.back (Grow.settleLoop n _ _) hj
-              have gp := (gu.tr0 ((Sim.recvOne (rest := rest) (Mux.unpark e) w hsfu hj1).inb hi' rfl))
+              have gp := SimX.tr0 gu ((SimX.recvOne (rest := rest) (Mux.unpark e) w hsfu hj1).inb hi' rfl)
               obtain ⟨evs, h1, h2⟩ := ih (Mux.recvOne (Mux.unpark e) w rest).1
                 (acc ++ (Mux.recvOne (Mux.unpark e) w rest).2.1) hsf1 hj
               exact ⟨(Mux.recvOne (Mux.unpark e) w rest).2.1 ++ evs, by rw [h1, List.append_assoc],
                 gp.trans (h2.inb (recvOne_inbox (Mux.unpark e) w rest).symm rfl)⟩
           · rename_i hneg
-            rw [recvCase_neg _ _ hneg]
+            rw [recvCase_neg _ _ hneg, recvOrElse_else _ _ hneg]
             split
             · rename_i rest hq
-              simp only [hq]
+              simp only [hq, if_true]
               intro hj
               have hsf1 : SF { Mux.unpark e with droppedq := rest } :=
                 SF.grow ((Grow.unpark e).trans (Grow.same rfl rfl)) hsf
-              have gw := (Sim.windDown { Mux.unpark e with droppedq := rest } true .ok hsf1 hj).inb
+              have gw := (SimX.windDown { Mux.unpark e with droppedq := rest } true .ok hsf1 hj).inb
                 (unpark_inbox' e).symm rfl
-              exact ⟨_, rfl, gu.tr0 (gw.congr (a := Mux.unpark e) rfl rfl)⟩
+              exact ⟨_, rfl, SimX.tr0 gu (gw.congr (a := Mux.unpark e) rfl rfl)⟩
             · rename_i fid rest h0 hq
-              simp only [hq]
+              have hz' : ¬ fid = 0 := fun h => h0 (h ▸ rfl)
+              simp only [hq, hz', if_false, finsOf_append]
+              rw [finsOf_closeFlowEnds_ne _ fid (.dropped fid) (by intro h; cases h), List.nil_append]
               intro hj
+              have hsfq : SF { Mux.unpark e with droppedq := rest } :=
+                SF.grow ((Grow.unpark e).trans (Grow.same rfl rfl)) hsf
+              have hjq : J x j { Mux.unpark e with droppedq := rest } :=
+                J.back ((Grow.closeFlow { Mux.unpark e with droppedq := rest } fid false).trans (Grow.settleLoop n _ _)) hj
               have gc : Sim x j e.inbox (Mux.unpark e) e.inbox (Mux.closeFlow { Mux.unpark e with droppedq := rest } fid false).1
                   (Mux.closeFlow { Mux.unpark e with droppedq := rest } fid false).2 [] :=
-                (Sim.closeFlow { Mux.unpark e with droppedq := rest } fid false).congr rfl rfl
+                (Sim.closeFlow { Mux.unpark e with droppedq := rest } fid false hsfq hjq).congr rfl rfl
               have hsf1 : SF (Mux.closeFlow { Mux.unpark e with droppedq := rest } fid false).1 :=
-                SF.grow ((Grow.closeFlow { Mux.unpark e with droppedq := rest } fid false).after
-                  ((Grow.unpark e).trans (Grow.same rfl rfl))) hsf
+                SF.grow (Grow.closeFlow { Mux.unpark e with droppedq := rest } fid false) hsfq
               have hib : (Mux.closeFlow { Mux.unpark e with droppedq := rest } fid false).1.inbox = e.inbox := by
                 rw [closeFlow_inbox]; exact unpark_inbox' e
               obtain ⟨evs, h1, h2⟩ := ih (Mux.closeFlow { Mux.unpark e with droppedq := rest } fid false).1
                 (acc ++ (Mux.closeFlow { Mux.unpark e with droppedq := rest } fid false).2) hsf1 hj
               exact ⟨(Mux.closeFlow { Mux.unpark e with droppedq := rest } fid false).2 ++ evs,
-                by rw [h1, List.append_assoc], (gu.tr0 gc).trans (h2.inb hib.symm rfl)⟩
+                by rw [h1, List.append_assoc], ((gu.tr0 gc).toX.trans (h2.inb hib.symm rfl)).rec rfl⟩
             · rename_i hq
               simp only [hq]
               intro _
-              exact ⟨[], by simp, gu.inb rfl (unpark_inbox' e)⟩
+              exact ⟨[], by simp, (gu.inb rfl (unpark_inbox' e)).toX⟩
 
 /-! ### The open futures, and the whole run -/
 
@@ -400,11 +481,11 @@ theorem Sim.hold {l : List WsIn} (e : EP) (c : Bool) :
   · exact Sim.sendSome e
 
 /-- The task's run to quiescence after a stimulus, the open futures included. -/
-theorem Sim.settle (e : EP) (hsf : SF e) (hj : J x j (settle e).1) :
-    Sim x j e.inbox e (settle e).1.inbox (settle e).1 (settle e).2 (settleLog e) := by
-  have h0 := Sim.settleLoop (x := x) (j := j) (2 * e.inbox.length + e.droppedq.length + 2) e [] hsf
+theorem SimX.settle (e : EP) (hsf : SF e) (hj : J x j (settle e).1) :
+    SimX x j e.inbox e (settle e).1.inbox (settle e).1 (settle e).2 (settleLog e) (finsOf x j (settleEnds e)) := by
+  have h0 := SimX.settleLoop (x := x) (j := j) (2 * e.inbox.length + e.droppedq.length + 2) e [] hsf
   revert hj
-  unfold Mux.settle settleLog
+  unfold Mux.settle settleLog settleEnds
   generalize Mux.settleLoop (2 * e.inbox.length + e.droppedq.length + 2) e [] = r1 at h0
   obtain ⟨e1, evs1⟩ := r1
   simp only at h0 ⊢
@@ -441,7 +522,7 @@ theorem Sim.settle (e : EP) (hsf : SF e) (hj : J x j (settle e).1) :
   obtain ⟨evs, h1, h2⟩ := h0 (J.back (((g1.trans g2).trans g3).trans g4) hj)
   simp only [List.nil_append] at h1
   subst h1
-  refine (((((h2.trans s1).trans s2).trans s3).trans s4 |>.inb rfl ?_).evs ?_).log (by simp)
+  refine ((((((h2.trans s1.toX).trans s2.toX).trans s3.toX).trans s4.toX |>.inb rfl ?_).evs ?_).log (by simp)).rec (by simp)
   · rw [i4, i3, i2, i1]
   · simp [List.append_assoc]
 
